@@ -382,7 +382,7 @@ func (e *Engine) findPatterns(body *Term, bnd []*Term) []*Term {
 			return
 		}
 		vis[t] = true
-		if t.Op == "select" && mentions(t.Args[1]) && !mentions(t.Args[0]) && !seen[t] {
+		if t.Op == "select" && mentions(t.Args[1]) && !mentions(t.Args[0]) && !seen[t] && !hasIte(t) {
 			// avoid patterns with interpreted arithmetic only when something better exists: keep all
 			seen[t] = true
 			out = append(out, t)
@@ -910,4 +910,28 @@ func (e *Engine) globalBytesLit(g *ssa.Global) (string, bool) {
 		return "", false
 	}
 	return s, true
+}
+
+// hasIte: terms with if-then-else (or boolean structure) cannot be used in patterns; z3 drops the
+// whole annotation with a warning and falls back to model-based instantiation.
+func hasIte(t *Term) bool {
+	found := false
+	vis := map[*Term]bool{}
+	var rec func(t *Term)
+	rec = func(t *Term) {
+		if found || vis[t] {
+			return
+		}
+		vis[t] = true
+		switch t.Op {
+		case "ite", "and", "or", "not", "=>", "=", "bvslt", "bvult", "distinct":
+			found = true
+			return
+		}
+		for _, a := range t.Args {
+			rec(a)
+		}
+	}
+	rec(t)
+	return found
 }
